@@ -60,6 +60,7 @@ pub trait HC: Codec + 'static + std::panic::RefUnwindSafe + std::panic::UnwindSa
     fn kdispatch(op: &str, k: usize, st: &str, a: &crate::kmer::KArgs<Self>) -> crate::eval::R<String>;
     fn kd_dispatch<T>(k: usize, x: &SeqSlice<Self>, cont: &mut dyn FnMut(&SeqSlice<Self>) -> crate::eval::R<T>) -> crate::eval::R<T>;
     fn ofkmer_dispatch(k: usize, x: &SeqSlice<Self>) -> crate::eval::R<Seq<Self>>;
+    fn kmers_adapt(k: usize, ad: &str, arg: usize, x: &SeqSlice<Self>) -> crate::eval::R<String>;
 }
 
 macro_rules! comp_methods {
